@@ -630,6 +630,13 @@ func (s *Store[K, V]) removeEntry(entry *Entry[K, V], reason RemoveReason) {
 				}
 			}
 		}
+		if s.secondaryCache != nil && !entry.flag.IsFromNVM() {
+			// the entry is newer than whatever the secondary cache holds for its key
+			// and is not going to be written there: the older copy must not outlive it
+			if err := s.secondaryCache.Delete(entry.key); err != nil {
+				s.secondaryCache.HandleAsyncError(err)
+			}
+		}
 		shard.mu.Lock()
 		deleted := shard.delete(entry)
 		shard.mu.Unlock()
